@@ -81,11 +81,14 @@ var tmplLines = []string{
 	"{% if true %}{% end %}",           // 31 two statements: the line is not removed
 	"        @",                        // 32 eight spaces
 	"{%% _ = 1 %%}",                    // 33 statements block on one line
+	"   @",                             // 34 three spaces: not a code block
+	" \t@",                             // 35 a space and a tab
+	"     @",                           // 36 five spaces
 }
 
 const tmplCore = 12
 
-var tmplProbes = []int{2, 3, 4, 5, 6, 14, 32}
+var tmplProbes = []int{2, 3, 4, 5, 6, 14, 32, 34}
 
 // assemble turns line kinds into a template; shows are numbered, unbalanced
 // statements are repaired (an end without an opener is dropped, openers left
